@@ -771,6 +771,21 @@ func c10Main(args []string) {
 		st.OpsSkipped += len(s.Ops) - r.executed
 		for _, op := range s.Ops {
 			st.OpsByKind[op.Kind]++
+			if op.Kind == "noise" {
+				st.Probes["noise_op:"+op.Noise]++
+			}
+		}
+		if s.ReuseSources {
+			st.Probes["sessions_reusing_source_objects"]++
+		}
+		if s.NamedDocs {
+			st.Probes["sessions_with_named_document_sources"]++
+		}
+		if len(s.Schemas) > 0 && s.Schemas[0].Name == "" {
+			st.Probes["sessions_with_unnamed_schema_sources"]++
+		}
+		if len(s.Schemas) > 0 && strings.HasPrefix(s.Schemas[0].Text, "\ufeff") {
+			st.Probes["sessions_with_bom_schema"]++
 		}
 		st.Observations += len(r.obs)
 		// stats on visits
